@@ -44,6 +44,8 @@ pub fn v1_err_name(e: &v1::ParseError) -> &'static str {
         InvalidDestinationAddress(_) => "InvalidDestinationAddress",
         InvalidSourcePort(_) => "InvalidSourcePort",
         InvalidDestinationPort(_) => "InvalidDestinationPort",
+        #[allow(unreachable_patterns)]
+        _ => "OtherV1Error",
     }
 }
 
@@ -51,6 +53,8 @@ pub fn v1b_err_name(e: &v1::BinaryParseError) -> &'static str {
     match e {
         v1::BinaryParseError::Parse(p) => v1_err_name(p),
         v1::BinaryParseError::InvalidUtf8(_) => "InvalidUtf8",
+        #[allow(unreachable_patterns)]
+        _ => "OtherV1BinaryError",
     }
 }
 
@@ -91,6 +95,8 @@ pub fn v2_err_name(e: &v2::ParseError) -> &'static str {
         InvalidAddresses(..) => "InvalidAddresses",
         InvalidTLV(..) => "InvalidTLV",
         Leftovers(_) => "Leftovers",
+        #[allow(unreachable_patterns)]
+        _ => "OtherV2Error",
     }
 }
 
@@ -142,6 +148,7 @@ pub fn v1_universes(b: &V1Bounds) -> Vec<Box<dyn Universe>> {
         Box::new(u1::unknown_universe(6)), // six slots: the full product
         Box::new(u1::len_universe()),
         Box::new(u1::utf_universe(b.utf_suffix)),
+        Box::new(u1::anybyte_universe()),
         Box::new(u1::byte_universe("U1-byte/all-stems", u1::all_stems(), b.d_all)),
         Box::new(u1::byte_universe("U1-byte/boundary-stems", u1::boundary_stems(), b.d_boundary)),
         Box::new(u1::byte_universe("U1-byte/empty-stem", vec![vec![]], b.d_empty)),
@@ -158,14 +165,119 @@ pub fn v2_universes(tier: Tier) -> Vec<Box<dyn Universe>> {
     vec![
         Box::new(u2::CtlUniverse),
         Box::new(u2::LenUniverse {
-            presents: tier.pick(u2::Presents::Boundaries, u2::Presents::EveryUpTo(512)),
+            presents: tier.pick(u2::Presents::Boundaries, u2::Presents::EveryUpTo(2048)),
             name: "U2-len",
         }),
-        Box::new(u2::sig_universe()),
+        Box::new(u2::sig_universe_with(tier == Tier::Thorough)),
         Box::new(u2::addr_universe()),
-        Box::new(u2::byte_universe(tier.pick(4, 5))),
+        Box::new(u2::byte_universe(tier.pick(4, 6))),
     ]
 }
 
 #[allow(dead_code)]
 pub fn _unused(_: &universe::ListUniverse) {}
+
+/// Runs every parse entry point on `input` and discards the results (warming whatever state a parser may keep).
+pub fn warm_all(input: &[u8]) {
+    let _ = v1::Header::try_from(input).map(|h| h.header.len());
+    if let Ok(s) = std::str::from_utf8(input) {
+        let _ = v1::Header::try_from(s).map(|h| h.header.len());
+    }
+    let _ = v2::Header::try_from(input).map(|h| (h.len(), h.tlvs().take(8).count()));
+    let _ = ppp::HeaderResult::parse(input);
+}
+
+pub fn v1_seq_pool() -> Vec<Vec<u8>> {
+    let mut p: Vec<Vec<u8>> = [
+        "PROXY TCP4 1.2.3.4 5.6.7.8 80 443\r\n",
+        "PROXY TCP4 9.9.9.9 8.8.8.8 1 2\r\nGET / HTTP/1.1\r\n\r\n",
+        "PROXY TCP6 1:2:3:4:5:6:7:8 ::1 65535 0\r\n",
+        "PROXY TCP6 ::1 ::1a 1 2\r\n",
+        "PROXY TCP6 ::1a ::1 2 1\r\n",
+        "PROXY UNKNOWN 1.2.3.4 5.6.7.8 80 443\r\n",
+        "PROXY UNKNOWN\r\n",
+        "PROXY UNKNOWN\r\nGET / HTTP/1.1\r\nHost: x\r\n\r\n",
+        "PROXY UNKNOWN \u{e9}\u{e9}\r\n",
+        "PROXY UNKNOWN a",
+        "PROXY TCP4 1.2.3.4 5.6",
+        "PRO",
+        "PROXY TCP4 1.2.3.4 5.6.7.8 80 443 \r\n",
+        "HELLO\r\n",
+    ]
+    .iter()
+    .map(|s| s.as_bytes().to_vec())
+    .collect();
+    p.push(vec![b'x'; 60]);
+    p.push(b"PROXY UNKNOWN \xff\r\n".to_vec());
+    p
+}
+
+pub fn v2_seq_pool() -> Vec<Vec<u8>> {
+    use crate::oracle::v2::SIG;
+    let head = |vc: u8, afp: u8, payload: &[u8]| -> Vec<u8> {
+        let mut h = SIG.to_vec();
+        h.push(vc);
+        h.push(afp);
+        h.push((payload.len() >> 8) as u8);
+        h.push(payload.len() as u8);
+        h.extend_from_slice(payload);
+        h
+    };
+    let a = head(0x21, 0x11, &[10, 1, 2, 3, 10, 3, 2, 1, 0x1f, 0x90, 0x01, 0xbb]);
+    let b = head(0x21, 0x11, &[10, 9, 8, 7, 172, 16, 0, 1, 0x00, 0x50, 0xff, 0xfe, 4, 0, 1, 7]);
+    let c6: Vec<u8> = (0..36).map(|i| 0x40 + i as u8).collect();
+    let ux: Vec<u8> = (0..216).map(|i| (i * 3 + 1) as u8).collect();
+    let mut a_tail = a.clone();
+    a_tail.extend_from_slice(b"GET /");
+    vec![
+        a.clone(),
+        b,
+        head(0x21, 0x21, &c6),
+        head(0x21, 0x31, &ux),
+        head(0x20, 0x00, &[1, 0, 1, 9]),
+        a[..20].to_vec(),
+        a_tail,
+        head(0x20, 0x12, &[10, 1, 2, 3, 10, 3, 2, 1, 0x1f, 0x90, 0x01, 0xbb]),
+    ]
+}
+
+pub fn seq_universes(tier: Tier, v1: bool, v2: bool) -> Vec<Box<dyn Universe>> {
+    let mut out: Vec<Box<dyn Universe>> = Vec::new();
+    if v1 {
+        out.push(Box::new(SeqUniverse { name: "USeq-v1".into(), pool: v1_seq_pool(), depth: tier.pick(3, 4) }));
+    }
+    if v2 {
+        out.push(Box::new(SeqUniverse { name: "USeq-v2".into(), pool: v2_seq_pool(), depth: tier.pick(5, 6) }));
+    }
+    out
+}
+
+fn short(s: String) -> String {
+    if s.len() > 600 { format!("{}…", &s[..s.char_indices().take_while(|(i, _)| *i < 600).last().map_or(0, |(i, c)| i + c.len_utf8())]) } else { s }
+}
+
+/// The parse entry points as printable outcomes (for `history_differential`).
+pub fn parse_entries() -> Vec<(&'static str, Outcome)> {
+    fn e_v1_bytes(i: &[u8]) -> String {
+        short(match guard(|| v1::Header::try_from(i)) { Ok(r) => format!("{:?}", r), Err(p) => format!("PANIC: {}", p) })
+    }
+    fn e_v1_str(i: &[u8]) -> String {
+        match std::str::from_utf8(i) {
+            Ok(s) => short(match guard(|| (v1::Header::try_from(s), s.parse::<v1::Addresses>(), s.parse::<v1::Header<'static>>())) { Ok(r) => format!("{:?}", r), Err(p) => format!("PANIC: {}", p) }),
+            Err(_) => "not UTF-8".into(),
+        }
+    }
+    fn e_v2(i: &[u8]) -> String {
+        short(match guard(|| v2::Header::try_from(i).map(|h| (h.command, h.protocol, h.addresses, h.len(), h.address_bytes().len(), h.tlvs().take(16).map(|t| t.map(|t| (t.kind, t.value.len())).map_err(|e| format!("{:?}", e))).collect::<Vec<_>>()))) { Ok(r) => format!("{:?}", r), Err(p) => format!("PANIC: {}", p) })
+    }
+    fn e_auto(i: &[u8]) -> String {
+        short(match guard(|| {
+            let r = ppp::HeaderResult::parse(i);
+            match &r {
+                ppp::HeaderResult::V2(Ok(h)) => format!("V2(Ok({:?} {:?} {} bytes))", h.command, h.addresses, h.len()),
+                other => format!("{:?}", other),
+            }
+        }) { Ok(r) => r, Err(p) => format!("PANIC: {}", p) })
+    }
+    vec![("v1::Header::try_from(&[u8])", e_v1_bytes as Outcome), ("v1 text entry points", e_v1_str as Outcome), ("v2::Header::try_from(&[u8])", e_v2 as Outcome), ("HeaderResult::parse", e_auto as Outcome)]
+}
